@@ -58,7 +58,11 @@ def _run(inp):
         lib.tbl["omega"] = lib.tbl["omega"].to(u.Unit(ac))
         lib.tbl["M0"] = lib.tbl["M0"].to(u.Unit(ac))
     joker = TheJoker(prior, rng=np.random.default_rng(99))
+    P_before = np.array(lib["P"].value, copy=True)
     ll = joker.marginal_ln_likelihood(data, lib, in_memory=mem)
+    ll_again = joker.marginal_ln_likelihood(data, lib, in_memory=mem)
+    if not np.array_equal(np.asarray(ll), np.asarray(ll_again)) or not np.array_equal(P_before, np.asarray(lib["P"].value)):
+        _ref.setdefault("twice_fail", []).append(dict(inp))
     joker2 = TheJoker(prior, rng=np.random.default_rng(99))
     post = joker2.rejection_sample(data, lib, in_memory=mem)
     return ll, post, len(data)
@@ -72,6 +76,9 @@ def check(inp):
         _ref["ref"] = _run({"du": "km/s", "vu": "km/s", "Pu": "day", "seed": inp["seed"]})
     ll0, post0, n = _ref["ref"]
     ll, post, _ = _run(inp)
+    if _ref.get("twice_fail"):
+        bad("same-answer-when-the-same-samples-are-evaluated-again[call-history]", cfg=_ref.pop("twice_fail")[0])
+        return fails
     ratio = (1 * u.km / u.s).to_value(u.Unit(inp["du"]))
     want = ll0 - n * np.log(ratio)
     if inp.get("cached"):
